@@ -35,9 +35,16 @@
 (* call and return of a controller call, return of run()) are explicit      *)
 (* "logged" steps; everything else is silent.                               *)
 (*                                                                          *)
-(* Backoff arithmetic is symbolic: lp.k = e means in_backoff =              *)
-(* min(max, min*mult^(e-1)) (0: not backing off).  For mult >= 1, min >= 0  *)
-(* the code's update min(max, max(in_backoff*mult, min)) maps e to e+1.     *)
+(* Backoff arithmetic twice: symbolic (lp.k = e means in_backoff =         *)
+(* min(max, min*mult^(e-1)), 0: not backing off; for mult >= 1, min >= 0    *)
+(* the code's update min(max, max(in_backoff*mult, min)) maps e to e+1) and *)
+(* numeric: lp.b is the value of in_backoff computed by the code's update,  *)
+(* an exact rational, from the parameters lp.bp = (min, max, mult = p/q,    *)
+(* the loop's ordinary `sleep`), all in one integer unit.  The pause at the *)
+(* end of an iteration is in_backoff when in_backoff > 0, else `sleep`;     *)
+(* `sleep` is a dimension of its own (constant set Sleeps: below min,       *)
+(* between min and max, above max): the law says nothing about it while     *)
+(* the service is backing off.                                              *)
 (*                                                                          *)
 (* The property clauses are evaluated by a monitor (`g`, `ga`) that is a    *)
 (* function of the LOGGED steps only; the trace specifications reuse the    *)
@@ -57,6 +64,12 @@ CONSTANTS Ctls,            \* controller thread ids (naturals >= 1)
           FixedStopOrder,  \* 0: code as found   stopping; wake(); shutdown = forever
                            \* 1: shutdown = forever; stopping; wake()
                            \* 2: if forever: shutdown = True; stopping; wake()
+          BMin, BMax,      \* backoff parameters of the design runs, integers in one unit: min_backoff, max_backoff,
+          BMulP, BMulQ,    \* mult_backoff = BMulP / BMulQ
+          Sleeps,          \* the loop's ordinary sleep (run(sleep=...)): one of these per behaviour
+          PauseMax,        \* FALSE: code as found  pause = in_backoff if in_backoff > 0 else sleep
+                           \* TRUE:  design variant pause = max(sleep, in_backoff)  (EXPECTED to break the backoff law
+                           \*        whenever sleep is larger than the first backoff steps)
           ResetInRun       \* FALSE: code as found  start() clears the stop request before it creates the thread
                            \* TRUE:  design variant: the loop thread clears it at the head of run() (EXPECTED to lose
                            \*        a stop() that lands between start() returning and the loop thread's first statement)
@@ -164,6 +177,40 @@ GDoG(gg, o) == [gg EXCEPT !.k = NewK(gg.k, o),
 GDoBad(gg) == (IF gg.armed THEN {"NoDoAfterStopReturned"} ELSE {})
               \cup (IF gg.req /\ gg.rd >= 1 THEN {CannotReturn} ELSE {})
 
+\* --- the law, exact on rationals [num, den] -------------------------------------------------------------------
+\* c = [mn, mx, p, q, norm]: min, max, mult = p/q, ordinary sleep.  After k consecutive failures the wait is
+\* min(max, min * mult^(k-1)); evaluated exactly, stopping at the cap (mult >= 1 makes the sequence monotone, so once
+\* capped always capped)
+RECURSIVE Law(_, _)
+Law(c, k) == IF k = 1 THEN (IF c.mn >= c.mx THEN [cap |-> TRUE, num |-> 0, den |-> 1]
+                             ELSE [cap |-> FALSE, num |-> c.mn, den |-> 1])
+             ELSE LET r == Law(c, k - 1) IN
+                  IF r.cap THEN r
+                  ELSE IF r.num * c.p >= c.mx * r.den * c.q THEN [cap |-> TRUE, num |-> 0, den |-> 1]
+                  ELSE [cap |-> FALSE, num |-> r.num * c.p, den |-> r.den * c.q]
+Rat(n) == [num |-> n, den |-> 1]
+RatEq(x, y) == x.num * y.den = y.num * x.den
+RatLt(x, y) == x.num * y.den < y.num * x.den
+Reduce(x) == IF x.num % x.den = 0 THEN Rat(x.num \div x.den) ELSE x
+\* the pause the property prescribes after k consecutive failures (k = 0: healthy); a wait of zero is "no waiting":
+\* the loop then sleeps its ordinary period
+Pause(c, k) ==
+  IF k = 0 THEN Rat(c.norm)
+  ELSE LET r == Law(c, k) IN
+       IF r.cap THEN (IF c.mx > 0 THEN Rat(c.mx) ELSE Rat(c.norm))
+       ELSE IF r.num > 0 THEN [num |-> r.num, den |-> r.den] ELSE Rat(c.norm)
+Match(c, k, req) == RatEq(Pause(c, k), req)
+
+\* --- the code's arithmetic ------------------------------------------------------------------------------------
+\* __increment_backoff: in_backoff = min(max_backoff, max(in_backoff * mult_backoff, min_backoff))
+IncB(c, b) == LET m  == [num |-> b.num * c.p, den |-> b.den * c.q]
+                  lo == IF RatLt(m, Rat(c.mn)) THEN Rat(c.mn) ELSE m
+              IN Reduce(IF RatLt(Rat(c.mx), lo) THEN Rat(c.mx) ELSE lo)
+NewB(c, b, o) == IF o \in {"backoff", "exc", "base"} THEN IncB(c, b) ELSE IF o = "nothing" THEN b ELSE Rat(0)
+\* the pause the loop asks for at the end of an iteration
+Request(c, b) == IF PauseMax THEN (IF RatLt(b, Rat(c.norm)) THEN Rat(c.norm) ELSE b)
+                 ELSE IF b.num > 0 THEN b ELSE Rat(c.norm)
+
 \* --- interruptable_sleep is entered; `match`: the requested time is the one the law gives for gg.k ---
 GSleepBad(gg, match) ==
   IF match THEN {} ELSE IF gg.last = "fail" THEN {"BackoffLaw"} ELSE {"ClearOnSuccess"}
@@ -199,11 +246,13 @@ GExitBad(exc) == IF exc THEN {"SurvivesAnything"} ELSE {}
 TState(h) == IF h = 0 THEN "none" ELSE IF h = sh.gen THEN sh.tst ELSE "dead"
 AIdle == [pc |-> "idle", kind |-> "none", t |-> 0, res |-> "ok"]
 
+BCfg(s) == [mn |-> BMin, mx |-> BMax, p |-> BMulP, q |-> BMulQ, norm |-> s]
+LpInit(pc, c) == [pc |-> pc, k |-> 0, out |-> "did", ndo |-> 0, b |-> Rat(0), bp |-> c]
 Init ==
   /\ sh = IF PreStarted
           THEN [stopping |-> FALSE, shutdown |-> FALSE, intr |-> 1, flag |-> FALSE, thread |-> 1, gen |-> 1, tst |-> "alive"]
           ELSE [stopping |-> FALSE, shutdown |-> FALSE, intr |-> 0, flag |-> FALSE, thread |-> 0, gen |-> 0, tst |-> "dead"]
-  /\ lp = [pc |-> IF PreStarted THEN "top1" ELSE "none", k |-> 0, out |-> "did", ndo |-> 0]
+  /\ \E s \in Sleeps : lp = LpInit(IF PreStarted THEN "top1" ELSE "none", BCfg(s))
   /\ ac = [a \in Actors |-> AIdle]
   /\ ncalls = 0
   /\ g = [GInit EXCEPT !.run = PreStarted] /\ ga = GAInit(Actors) /\ bad = {}
@@ -236,12 +285,12 @@ LPerform ==
   /\ IF lp.out \in SelfStops
        THEN /\ Go("instop")
             /\ ac' = [ac EXCEPT ![0] = [AIdle EXCEPT !.pc = "pend", !.kind = IF lp.out = "sstopT" THEN "stopTW" ELSE "stopFW"]]
-       ELSE /\ lp' = [lp EXCEPT !.pc = "chk1", !.k = NewK(lp.k, lp.out)]
+       ELSE /\ lp' = [lp EXCEPT !.pc = "chk1", !.k = NewK(lp.k, lp.out), !.b = NewB(lp.bp, lp.b, lp.out)]
             /\ UNCHANGED ac
   /\ UNCHANGED <<sh, ncalls>> /\ Silent
 LDoRet ==
   /\ Pc("instop") /\ ac[0].pc = "idle"
-  /\ lp' = [lp EXCEPT !.pc = "chk1", !.k = NewK(lp.k, "did")]
+  /\ lp' = [lp EXCEPT !.pc = "chk1", !.k = NewK(lp.k, "did"), !.b = Rat(0)]
   /\ UNCHANGED <<sh, ac, ncalls>> /\ Silent
 LChk1 == Pc("chk1") /\ Go(IF sh.stopping THEN "fin1" ELSE "chk2") /\ UNCHANGED sh /\ LoopOnly /\ Silent
 LChk2 == Pc("chk2") /\ Go(IF sh.shutdown THEN "fin1" ELSE "chk3") /\ UNCHANGED sh /\ LoopOnly /\ Silent
@@ -250,10 +299,10 @@ LUntil ==
   /\ Pc("chk3") /\ UseUntil /\ Go("fin1")
   /\ g' = GUntilG(g) /\ ga' = GUntilA(ga)
   /\ UNCHANGED <<sh, ac, ncalls, bad>>
-\* logged: interruptable_sleep(in_backoff or sleep) entered; match = the request follows the law for g.k
-LSleepE(match) ==
+\* logged: interruptable_sleep(req) entered; the clause: the request is the pause the law gives for g.k
+LSleepE(req) ==
   /\ Pc("chk3") /\ Go("sl2")
-  /\ bad' = bad \cup GSleepBad(g, match)
+  /\ bad' = bad \cup GSleepBad(g, Match(lp.bp, g.k, req))
   /\ UNCHANGED <<sh, ac, ncalls, g, ga>>
 LSl2w == Pc("sl2") /\ sh.flag /\ Go("sl3") /\ UNCHANGED sh /\ LoopOnly /\ Silent      \* Event.wait -> True
 LSl2t == Pc("sl2") /\ ~sh.flag /\ Go("top1") /\ UNCHANGED sh /\ LoopOnly /\ Silent    \* timed out
@@ -367,7 +416,7 @@ ActorSilent(a) == ASt0(a) \/ ASt1(a) \/ AWk1(a) \/ AWk2(a) \/ ASt3(a) \/ ASt4(a)
 ActorLogged(a) == (\E kd \in AllKinds : ACall(a, kd)) \/ AWkE(a) \/ AWkX(a) \/ AWtE(a) \/ AThS(a)
                   \/ (\E r \in {"ok", "false", "exc"} : ARet(a, r))
 
-Next == LoopSilent \/ LRunE \/ (\E o \in AllOutcomes : LDo(o)) \/ LSleepE(lp.k = g.k) \/ LUntil \/ LFinE \/ LDone \/ LExit
+Next == LoopSilent \/ LRunE \/ (\E o \in AllOutcomes : LDo(o)) \/ LSleepE(Request(lp.bp, lp.b)) \/ LUntil \/ LFinE \/ LDone \/ LExit
         \/ \E a \in Actors : ActorSilent(a) \/ ActorLogged(a)
 
 Spec == Init /\ [][Next]_vars
